@@ -205,8 +205,16 @@ func extendSharedStructs(p *Program) {
 			st := n.Underlying().(*types.Struct)
 			for i := 0; i < st.NumFields(); i++ {
 				for _, r := range reach(st.Field(i).Type(), 0) {
-					if !sharedStructs[typeName(r)] {
-						sharedStructs[typeName(r)] = true
+					rn := typeName(r)
+					// a struct held by value inside Conn is part of the connection: it follows
+					// Conn's ownership rule (touched by the connection's own goroutine)
+					if (name == "redis.Conn" || connOwned[name]) && !sharedStructs[rn] {
+						if _, byValue := st.Field(i).Type().(*types.Named); byValue {
+							connOwned[rn] = true
+						}
+					}
+					if !sharedStructs[rn] {
+						sharedStructs[rn] = true
 						changed = true
 					}
 				}
@@ -214,6 +222,9 @@ func extendSharedStructs(p *Program) {
 		}
 	}
 }
+
+// connOwned: struct types embedded by value in redis.Conn (grouped per-connection state).
+var connOwned = map[string]bool{}
 
 func buildSyncModel(c *Ctx) *syncModel {
 	extendSharedStructs(c.P)
@@ -428,7 +439,7 @@ func (m *syncModel) collectAccesses() {
 			if fa.Referrers() == nil {
 				return
 			}
-			curForeign = owner == "redis.Conn" && m.fromRegistry(fa.X, 0, map[ssa.Value]bool{})
+			curForeign = (owner == "redis.Conn" || connOwned[owner]) && m.fromRegistry(fa.X, 0, map[ssa.Value]bool{})
 			for _, r := range *fa.Referrers() {
 				switch x := r.(type) {
 				case *ssa.Store:
@@ -582,7 +593,7 @@ func runC14(c *Ctx) {
 			continue // never written outside construction: immutable after publication
 		}
 		nf++
-		isConn := strings.HasPrefix(field, "redis.Conn.")
+		isConn := strings.HasPrefix(field, "redis.Conn.") || connOwned[field[:strings.LastIndex(field, ".")]]
 		var bad []string
 		npairs := 0
 		for i, w := range accs {
